@@ -14,7 +14,7 @@ RULE = ('programs over Ret | Raise | Req(lock/unlock/get-config, datastore) | Se
         'locked(candidate), try} x Seq (Seq right-nested, the semantics being associative) is run against every answer '
         'script over {ok, error, warning} for the requests it makes: all scripts for N <= 3 (quick) / 4 (thorough), scripts with '
         'at most 2 (quick) / 3 (thorough) non-ok answers for N <= 5, at most 2 for N = 6 (thorough: all programs; quick: 250 '
-        'sampled) and 2500 sampled programs of size 7 (thorough); manager mode ALL; plus random '
+        'sampled) and 2000 sampled programs of size 7 (thorough); manager mode ALL; plus random '
         'programs up to size 14 with explicit lock/unlock requests, four datastore names, modes NONE/ERRORS/ALL, answers '
         'incl. warning+error and exempt messages with a user exempt pattern. A case is (program, answer script, mode, '
         'patterns); non-trivial = contains a Locked.')
@@ -321,7 +321,7 @@ def run(ctx):
     F = ['err', 'warn']
     # (size bound, max non-ok answers, sample size or None = every program of that size)
     plan = ([(3, 99, None), (5, 2, None), (6, 2, 250)] if not thorough else
-            [(4, 99, None), (5, 3, None), (6, 2, None), (7, 2, 2500)])
+            [(4, 99, None), (5, 3, None), (6, 2, None), (7, 2, 2000)])
     done = {}
     recs = []
     for N, mf, sample in plan:
@@ -339,7 +339,7 @@ def run(ctx):
     ctx.exhaustive = True
     ctx.extra['exhaustive_scope'] = ('every program of size <= %d x every answer script over {ok,error,warning}; every program of size <= %d x every '
                                      'script with <= %d non-ok answers%s' % ((3, 5, 2, '; 250 sampled programs of size 6 x <= 2 non-ok') if not thorough
-                                     else (4, 5, 3, '; every program of size 6 and 2500 sampled of size 7 x <= 2 non-ok')))
+                                     else (4, 5, 3, '; every program of size 6 and 2000 sampled of size 7 x <= 2 non-ok')))
     # random: bigger programs, explicit lock/unlock requests, all modes, richer answers, exempt patterns
     cases = []
     for _ in range(3000 if ctx.tier == 'quick' else 40000):
